@@ -4,6 +4,21 @@ import json
 
 # id -> (level category, level text, level note, technique, design_ref)
 CHECKS = {
+ "C08": ("exploration",
+   "Every string of length <=4 (quick) / <=5 (thorough) over {a . / \\ space % ~ :} is used as a target name (exhaustive part), plus random names from path-significant tokens up to 40 characters, in both file-name prefix modes: accepted names are put into a forged repository and saved into a fresh sandbox with decoy siblings; the whole sandbox is compared before/after (Ok => exactly one new regular file inside the canonical output directory holding the signed bytes; Err => no file created or modified; an absolute resolved name is never created). Random transfers (corruption, oversize, transport error at chunk k, pre-existing destination) run with an observer that the transport calls before every chunk and that reads the destination path: absent or old bytes only; after a failure no temporary file stays behind and a previous file is intact.",
+   "'Every moment' = every boundary between transport chunks (the observer lives in the transport stream). Runs as root in a temporary directory: a traversal by a broken tree is detected after it happened.",
+   "exhaustive small-scope enumeration of target names + property-based fault injection with a mid-transfer observer (proptest)",
+   "DESIGN.md section 4, C08"),
+ "C09": ("exploration",
+   "Random repositories with a root chain, a delegated role smaller or larger than targets.json and per-role limits from {0, size-1, size, size+1, default}, length/digest pins present or absent, transport chunk sizes 1..60000 and optionally one padded or endless answer: Ok iff every served file is within its own bound (pinned length, else the role's limit), bytes pulled per request <= bound + one chunk. Exhaustive grid of 0..5 available root updates x max_root_updates 0..7. Random delegation graphs with self-delegation, mutual delegation and diamonds: total requests <= 3 + root requests + number of simple delegation paths, the harness' request cap is never reached, acyclic graphs load.",
+   "The request bound is the lenient 'simple paths' count (a per-path or a per-role client both satisfy it). Hostile answers are limited to padding and endless streams.",
+   "property-based testing with scripted oversize/endless transports and generated delegation graphs + exhaustive root-limit grid (proptest)",
+   "DESIGN.md section 4, C09"),
+ "C16": ("exploration",
+   "Every delegated role name of length <=3 (quick) / <=4 (thorough) over {a / \\ . % ? # : space U+0001 e-acute 2 F} including the empty name (exhaustive part), percent-encoded spellings of other names, '.', '..', 'x.json', and random names up to 64 characters are packed about 120 per repository and observed at four places: URLs requested during load and cache_metadata, files created in the datastore, files written by cache_metadata, files written by the real editor (delegate_role / sign / write) which are then re-loaded through FilesystemTransport. Each must be a single plain entry directly inside its directory (sandbox diff), and name -> file name must be injective across the whole enumeration (shared map).",
+   "Names equal to top-level file stems (root, snapshot, targets, timestamp, <digits>.<those>, latest_known_time) are outside the quantified domain (TUF precondition) and only recorded as notes. Names are capped at 82 UTF-8 bytes (NAME_MAX after percent-encoding).",
+   "exhaustive small-scope enumeration of role names + property-based testing with sandbox diffs and a global injectivity map (proptest)",
+   "DESIGN.md section 4, C16"),
  "C01": ("exploration",
    "At each of the 8 verification sites (shipped root self-check, root hop under old keys, under new keys, timestamp, snapshot, targets, delegated role at depth 1 and 2) every signature list up to length 3 (quick) / 4 (thorough) over the property's vocabulary is enumerated for 2 ed25519 keys and thresholds 1..2 (flagged exhaustive), plus thousands of random cases with 1..4 keys of mixed algorithms (ed25519 / ecdsa-p256 / rsa-pss), thresholds 1..4 and lists up to length 5. Each case is a forged repository loaded through RepositoryLoader::load, and the parsed documents are also passed to the public verify_role; acceptance must equal 'distinct authorized table-listed keys with a genuinely valid signature >= threshold', computed from the case alone, and a rejection must be the signature-threshold error of that site.",
    "Signature validity itself is aws-lc's; documents are canonicalised and signed by the harness' own forge (not by olpc-cjson/tough). No cryptanalysis.",
